@@ -42,11 +42,10 @@ OPEN_STATEMENTS = [
     'givens_decomposition_square output is such a description is checked on generated matrices (correspondence)',
     'bogoliubov_transform / prepare_* / optimal_givens_decomposition / ffft: the conjugation identity and the prepared '
     'states are checked numerically (oracle, <= 5 resp. 8 qubits); the Givens decompositions themselves belong to C11; '
-    'ffft: for 2^M modes ffft_pow2_is_dft proves that the emitted op list implements the DFT on the one-particle sector, given the '
-    'single-gate actions of F0 / _TwiddleGate / _permute (checked against the real gate classes: gate-action oracle); for other sizes '
-    'only ffft_spec_partial (index recursion = DFT exponent table for every factor list) is proved — the prime-size blocks are '
-    'bogoliubov_transform circuits (C11); the extension from the one-particle sector to the full Fock space (U a^_k U^-1 as an '
-    'operator identity) and the normalisation 2^{-M/2} are the oracle',
+    'ffft: ffft_is_dft proves for EVERY size n that the emitted op list implements the DFT on the one-particle sector, given the '
+    'single-gate actions of F0 / _TwiddleGate / _permute / the prime blocks (prime blocks are bogoliubov_transform circuits whose '
+    'DFT action is their specification: C11 + gate-action oracle); conjugation_determines_fock_action lifts one-particle statements '
+    'to Fock space abstractly; that the real gates have these single-gate actions and the normalisation n^{-1/2} are the oracle',
 ]
 ASSUMPTIONS = [
     'cirq.unitary / cirq.Circuit.unitary, scipy.linalg.expm and numpy are trusted numerical kernels (abs. tol. 1e-9)',
@@ -1226,7 +1225,7 @@ def primitives_stream(ctx, lad):
     # single-gate actions assumed by applyFfftOp (hypotheses of ffft_pow2_is_dft) on the real gate classes
     import importlib
     ffm = importlib.import_module('openfermion.circuits.primitives.ffft')
-    lad.prefetch([2, 4, 5])
+    lad.prefetch([2, 3, 4, 5])
     case = {'fn': 'ffft gate actions'}
     st.case(case)
     ok, UF = safe(st, 'unitary(F0)', case, lambda: cirq.unitary(ffm.F0))
@@ -1245,6 +1244,14 @@ def primitives_stream(ctx, lad):
                   maxdiff(UT @ lad.get(2, 1, 1) @ UT.conj().T, np.exp(-2j * np.pi * kk / nn) * lad.get(2, 1, 1)))
             check(case, 'gate-action: twiddle leaves the other mode alone',
                   maxdiff(UT @ lad.get(2, 0, 1) @ UT.conj().T, lad.get(2, 0, 1)))
+    for pp in (3, 5):
+        qp = cirq.LineQubit.range(pp)
+        ok, UPr = safe(st, 'unitary(_ffft_prime)', case, lambda: circuit_unitary(cirq, ffm._ffft_prime(qp), qp))
+        if ok:
+            for kk in range(pp):
+                check(dict(case, prime=pp), 'gate-action: prime block a^_k = p^-1/2 sum_j e^{-2 pi i kj/p} a^_j',
+                      maxdiff(UPr @ lad.get(pp, kk, 1) @ UPr.conj().T,
+                              sum(np.exp(-2j * np.pi * kk * jj / pp) * lad.get(pp, jj, 1) for jj in range(pp)) / np.sqrt(pp)))
     for npm in (4, 5):
         qp = cirq.LineQubit.range(npm)
         perm = list(range(npm))
@@ -1284,6 +1291,16 @@ def primitives_stream(ctx, lad):
             if not maxdiff(C, want) <= 1e-8:
                 st.disagree('ffft single-particle coefficients vs the Model exponent table ctExp', case,
                             np.round(C, 6).tolist(), table)
+            if n >= 2:
+                # all sizes (theorem ffft_is_dft): the same operation semantics on integer polynomials mod X^n - 1
+                simc = ctx.driver.one({'op': 'c14.ffftsimcyc', 'n': n})
+                om = np.exp(-2j * np.pi / n)
+                Sc = np.array([[sum(c * om ** e for e, c in enumerate(poly)) for poly in row] for row in simc])
+                st.float_comparisons += 1
+                st.count('ffft:gate-action-simulation-any-size')
+                if not maxdiff(np.sqrt(n) * C, Sc) <= 1e-8:
+                    st.disagree('ffft single-particle coefficients vs the Model operation semantics runFfft (cyclic)', case,
+                                np.round(np.sqrt(n) * C, 6).tolist(), simc)
             if n >= 2 and n & (n - 1) == 0:
                 # the operations of the Model (runFfft on integer polynomials in omega_n mod omega^(n/2) = -1, the function
                 # of theorem ffft_pow2_is_dft) vs the real circuit: sqrt(n) C_kj = polynomial evaluated at e^{-2 pi i/n}
